@@ -88,6 +88,28 @@ func tcpDial(mode string, lateAt *time.Time) func(addr string) (net.Conn, error)
 // c19Prop is the property the probe scripts report under (they also run under C20: a probe round ends by its deadline).
 var c19Prop = "C19"
 
+// probeBubble runs one probe script in its own bubble; goroutines of the round that are still blocked when the
+// script has ended (the bubble reports them by panicking) are a finding of their own, with the script as replay.
+func probeBubble(t *testing.T, id string, f func()) {
+	prop := c19Prop
+	defer func() {
+		if rec := recover(); rec != nil {
+			msg := strings.Map(func(c rune) rune {
+				if c == ' ' || c == '\n' || c == '\t' || c == '=' {
+					return '_'
+				}
+				return c
+			}, fmt.Sprint(rec))
+			if len(msg) > 160 {
+				msg = msg[:160]
+			}
+			emit("%s leak id=%s msg=%s", prop, id, msg)
+			flushOut()
+		}
+	}()
+	synctest.Test(t, func(t *testing.T) { f() })
+}
+
 func c19Probe(r *rng, id string) {
 	indirect := []int{0, 1, 3}[r.intn(3)]
 	tcpMode := []string{"off", "off", "fail", "ok", "wrongseq", "late"}[r.intn(6)]
@@ -602,7 +624,7 @@ func TestC19(t *testing.T) {
 		n = envInt("VERIF_N", 60000)
 	}
 	forCases(n, 191, "p", func(i int, r *rng, id string) {
-		synctest.Test(t, func(t *testing.T) { c19Probe(r, id) })
+		probeBubble(t, id, func() { c19Probe(r, id) })
 	})
 	forCases(n/6, 195, "e", func(i int, r *rng, id string) {
 		synctest.Test(t, func(t *testing.T) { c19SendErr(r, id) })
